@@ -1,3 +1,17 @@
 #!/bin/bash
-# placeholder; replaced once engines exist
-exit 0
+# Offline setup: build the mirfacts driver (nightly, zero deps) and warm the dependency build cache used by the checks.
+set -e
+cd "$(dirname "$0")"
+export CARGO_NET_OFFLINE=true
+unset RUSTC_WRAPPER RUSTC_WORKSPACE_WRAPPER RUSTFLAGS
+(cd engine/mirfacts && cargo +nightly build --offline 2>&1 | tail -2)
+if [ -f engine/synq/Cargo.toml ]; then (cd engine/synq && cargo build --offline --release 2>&1 | tail -2); fi
+# warm: extract facts for the default configuration once (builds dependencies' metadata, ~1 min cold)
+python3 - <<'PY'
+import sys
+sys.path.insert(0, ".")
+from rules import facts
+d = facts.extract(config="default")
+print("facts:", d)
+PY
+echo "setup ok"
